@@ -844,8 +844,11 @@ impl<T> FastVec<T> {
             return Ok(());
         }
 
-        // Ensure we have enough capacity
-        self.ensure_capacity(src.len())?;
+        // Ensure we have enough capacity (ensure_capacity requires min_cap >= len,
+        // which does not hold when the source is shorter than the current content)
+        if src.len() > self.cap {
+            self.ensure_capacity(src.len())?;
+        }
 
         // Verify state after capacity adjustment
         crate::zipora_verify_ge!(self.cap, src.len());
